@@ -232,12 +232,7 @@ func (i UInt64) ExponentiateUInt64(other UInt64) UInt64 {
 	if other <= 0 {
 		return 1
 	}
-	result := i
-	var j UInt64
-	for j = 2; j <= other; j++ {
-		result *= i
-	}
-	return result
+	return StrictIntExponentiate(i, other)
 }
 
 func (i UInt64) Subtract(other Value) (UInt64, Value) {
